@@ -24,7 +24,7 @@ theorem closed_local (h : trace w entries fuel = some s) (m name r : Nat) (d d' 
     (hd' : findDecl (w.mod m) r = some d') : (m, d'.name) ∈ s.decls ∧
       (findDecl (w.mod m) d'.name = some d' → True) := by
   have h1 := C11.served_of_done w entries fuel s h _ (retained_processed w entries fuel s h m name hr) d hd
-  have h2 := C11.done_of_sched w entries fuel s h _ (h1.2 r href)
+  have h2 := C11.done_of_sched w entries fuel s h _ (h1.2.1 r href)
   have h3 := C11.served_of_done w entries fuel s h _ h2
   simp only [Served, hd'] at h3
   have h4 := C11.done_of_sched w entries fuel s h _ h3
@@ -43,10 +43,33 @@ theorem closed_import (h : trace w entries fuel = some s) (m name r : Nat) (d : 
     (hnd : findDecl (w.mod m) r = none) (hp : findImport (w.mod m) r = some p) :
     (m, r) ∈ s.imports ∧ Task.reqName p.2.1 p.2.2 ∈ s.done := by
   have h1 := C11.served_of_done w entries fuel s h _ (retained_processed w entries fuel s h m name hr) d hd
-  have h2 := C11.done_of_sched w entries fuel s h _ (h1.2 r href)
+  have h2 := C11.done_of_sched w entries fuel s h _ (h1.2.1 r href)
   have h3 := C11.served_of_done w entries fuel s h _ h2
   simp only [Served, hnd, hp] at h3
   exact ⟨h3.1, C11.done_of_sched w entries fuel s h _ h3.2⟩
+
+/-- **references through a namespace import stay resolvable**: when a retained declaration's
+signature mentions a namespace import as a whole (`typeof ns`), the import is retained and the
+imported module has been asked for everything but `default`; when it mentions `ns.x`, the import
+is retained and the imported module has been asked for `x` -/
+theorem closed_namespace_import (h : trace w entries fuel = some s) (m name : Nat) (d : Decl) (p : Nat × Nat)
+    (hr : (m, name) ∈ s.decls) (hd : findDecl (w.mod m) name = some d) :
+    (∀ r ∈ d.refs, findDecl (w.mod m) r = none → findImport (w.mod m) r = none → findNsImport (w.mod m) r = some p →
+      (m, r) ∈ s.imports ∧ Task.reqAll p.2 false ∈ s.done) ∧
+    (∀ q ∈ d.qrefs, findNsImport (w.mod m) q.1 = some p →
+      (m, q.1) ∈ s.imports ∧ Task.reqName p.2 q.2 ∈ s.done) := by
+  have h1 := C11.served_of_done w entries fuel s h _ (retained_processed w entries fuel s h m name hr) d hd
+  constructor
+  · intro r href hnd hni hns
+    have h2 := C11.done_of_sched w entries fuel s h _ (h1.2.1 r href)
+    have h3 := C11.served_of_done w entries fuel s h _ h2
+    simp only [Served, hnd, hni, hns] at h3
+    exact ⟨h3.1, C11.done_of_sched w entries fuel s h _ h3.2⟩
+  · intro q hq hns
+    have h2 := C11.done_of_sched w entries fuel s h _ (h1.2.2 q hq)
+    have h3 := C11.served_of_done w entries fuel s h _ h2
+    simp only [Served, hns] at h3
+    exact ⟨h3.1, C11.done_of_sched w entries fuel s h _ h3.2⟩
 
 /-- the star re-export chosen for a name is one of the module's, and the name is found through it;
 none is chosen only when no star re-export of the module provides the name (or for `default`) -/
